@@ -88,6 +88,18 @@ func checkHeader(c *mon.Ctx, h *ref.PES) (b []byte, hdrEnd int, ok bool) {
 		pes.NewPESHeader(nil)
 		c.Count("decode_after_failed_decode")
 	}
+	if k := gen.HashString(string(b)); k%4 == 1 && len(b) > 7 {
+		// the front of the same buffer is looked at first (a caller that only has the first bytes so far, or
+		// peeks at the stream id): the buffer behind the view is the caller's and stays what it is
+		n := 7 + int(k>>8)%min(12, len(b)-7)
+		pes.NewPESHeader(b[:n])
+		pes.NewPESHeader(b[:n:n])
+		c.Count("front_of_the_buffer_decoded_first")
+		if !bytes.Equal(b, snap) {
+			c.Fail("input-modified-behind-the-view", fmt.Sprintf("NewPESHeader on the first %d bytes of a buffer changed the buffer behind them (first difference at byte %d)", n, ref.FirstDiff(b, snap)), wit{mon.Hex(snap), shape(h), ""})
+			copy(b, snap)
+		}
+	}
 	ph, err := pes.NewPESHeader(b)
 	c.Eval(1)
 	w := func(d string) wit { return wit{mon.Hex(snap), shape(h), d} }
@@ -203,6 +215,28 @@ func carry(r *gen.Rand, pay []byte, pusi bool) packet.Packet {
 	if r.Chance(8) {
 		pk[1] |= 0x80
 	}
+	// the adaptation field in front of the payload is any well-formed one of its length: optional fields in any
+	// combination, also filling the field to the last byte or leaving one to three bytes of stuffing
+	if L := int(pk[4]); pk[3]&0x20 != 0 && L >= 1 && r.Chance(2) {
+		a := ref.GenAF(r, L)
+		if room := L - 1 - 2; room >= 2 && r.Chance(3) {
+			// transport private data and an adaptation field extension together, the first longer than the second
+			e := r.Intn(min(4, room/2))
+			t := room - e - r.Intn(min(4, room-e-e))
+			if t > e {
+				a = ref.AF{RAI: r.Bool()}
+				tv, ev := r.Bytes(t), r.Bytes(e)
+				a.TPD, a.Ext = &tv, &ev
+			}
+		}
+		cnt := a.Content()
+		if len(cnt) <= L {
+			copy(pk[5:], cnt)
+			for k := 5 + len(cnt); k < 5+L; k++ {
+				pk[k] = 0xff
+			}
+		}
+	}
 	return packet.Packet(pk)
 }
 
@@ -214,6 +248,9 @@ func packetLevel(c *mon.Ctx, r *gen.Rand, h *ref.PES, b []byte, hdrEnd int) {
 	// 1. PUSI set, intact start code
 	p := carry(r, b, true)
 	snap := p
+	if p[3]&0x20 != 0 && p[4] > 0 && p[5]&0x03 == 0x03 {
+		c.Count("packet.pes_start_behind_private_data_and_extension")
+	}
 	hb, err := packet.PESHeader(&p)
 	c.Eval(1)
 	if err != nil || !bytes.Equal(hb, b) {
@@ -283,6 +320,8 @@ func run(c *mon.Ctx) {
 	c.Rule("PES starts built by a reference builder: all 256 stream ids x PTS_DTS_flags {00,10,11} x flag bytes x PES_header_data_length = needed..255 (extra optional / stuffing bytes) x payload 0..23 bytes, each also carried in a transport packet (PUSI on/off, damaged start code, no payload flag) and short payloads 0..5 bytes. distinct non-trivial = distinct (stream id, PTS_DTS_flags, has extra header bytes, has payload, data_alignment) for headers with at least one optional or payload byte")
 	c.Assume("stream_id 0xBC (program_stream_map) is exercised for totality only; AlignedPUSI is asserted only for stream ids that carry the optional header and complete headers (>= 9 bytes)")
 	c.Floor("packet.adaptation_field_length_0", 200)
+	c.Floor("front_of_the_buffer_decoded_first", 1000)
+	c.Floor("packet.pes_start_behind_private_data_and_extension", 300)
 	c.Floor("aligned_pusi.true", 500)
 	c.Floor("aligned_pusi.false", 500)
 	per := c.N(40, 300000)
